@@ -1335,7 +1335,8 @@ namespace avel {
         auto is_reconstruction_smaller = _mm_cmplt_pd(reconstructed, decay(v));
         auto corrected_result = _mm_add_pd(reconstructed, _mm_and_pd(is_reconstruction_smaller, _mm_set1_pd(1.0f)));
 
-        return blend(mask2x64f{is_output_self}, v, vec2x64f{corrected_result});
+        // Rounding to an integer keeps the sign of the argument, also when the result is zero
+        return copysign(blend(mask2x64f{is_output_self}, v, vec2x64f{corrected_result}), v);
 
         #endif
 
@@ -1368,7 +1369,8 @@ namespace avel {
         auto is_reconstruction_smaller = _mm_cmplt_pd(decay(v), reconstructed);
         auto corrected_result = _mm_sub_pd(reconstructed, _mm_and_pd(is_reconstruction_smaller, _mm_set1_pd(1.0f)));
 
-        return blend(mask2x64f{is_output_self}, v, vec2x64f{corrected_result});
+        // Rounding to an integer keeps the sign of the argument, also when the result is zero
+        return copysign(blend(mask2x64f{is_output_self}, v, vec2x64f{corrected_result}), v);
 
         #endif
 
@@ -1398,7 +1400,8 @@ namespace avel {
 
         auto reconstructed = _mm_unpacklo_pd(reconstructed0, reconstructed1);
 
-        return blend(mask2x64f{is_output_self}, v, vec2x64f{reconstructed});
+        // Rounding to an integer keeps the sign of the argument, also when the result is zero
+        return copysign(blend(mask2x64f{is_output_self}, v, vec2x64f{reconstructed}), v);
 
         #endif
 
@@ -1418,7 +1421,8 @@ namespace avel {
         auto should_offset = abs(frac) >= vec2x64f{0.5};
         auto ret = whole + keep(should_offset, offset);
 
-        return ret;
+        // whole + 0.0 is +0.0 for a negative zero, so restore the sign of the argument
+        return copysign(ret, v);
 
         #endif
 
@@ -1451,7 +1455,8 @@ namespace avel {
 
                 auto reconstructed = _mm_unpacklo_pd(reconstructed0, reconstructed1);
 
-                return blend(mask2x64f{is_output_self}, v, vec2x64f{reconstructed});
+                // Rounding to an integer keeps the sign of the argument, also when the result is zero
+                return copysign(blend(mask2x64f{is_output_self}, v, vec2x64f{reconstructed}), v);
             }
             case _MM_ROUND_DOWN:        return avel::floor(v);
             case _MM_ROUND_TOWARD_ZERO: return avel::trunc(v);
